@@ -133,6 +133,66 @@ def _observe(h, user, cache_dir, tag, d):
     return outs
 
 
+def _observe_mutating(h, user, cache_dir, tag, d):
+    """Results of the state-changing commands as run by `user` with the given cache directory (None = disabled), each on a
+    copy of the store and of the cache: what the command reports and the objects in the store afterwards. Includes the
+    object-level commands, and a mirror upload into ANOTHER (empty) repository with the same cache directory."""
+    import shutil
+    outs = []
+    n = [0]
+
+    def cache_copy():
+        if cache_dir is None:
+            return None
+        n[0] += 1
+        cc = d / f'cc_{tag}_{user}_{n[0]}'
+        if Path(cache_dir).exists():
+            shutil.copytree(cache_dir, cc)
+        return str(cc)
+
+    def on_copy(fn, be2=None, unlocked=True):
+        be2 = rt.MemBackend(dict(h.be.objs)) if be2 is None else be2
+        rt.determinism(77)
+        if unlocked:
+            r = fresh_repo(h.U, user, be2, concurrent=2, cache_directory=cache_copy())
+        else:
+            r = Repository(be2, concurrent=2, cache_directory=cache_copy())
+        o = _capture(rt.MiniLoop().run_until_complete, lambda: fn(r))
+        return o + (sorted(be2.objs.items()),)
+    src = d / f'msrc_{tag}_{user}'
+    src.mkdir()
+    (src / 'n.bin').write_bytes(b'new data for ' + user.encode() + bytes(range(30)))
+    (src / 'a.bin').write_bytes(hist.FILESETS[0]['a.bin'])
+    # (same path for the cached and the cache-less run: the snapshot records absolute paths)
+    stable = d / f'msrc_{user}'
+    if not stable.exists():
+        src.rename(stable)
+    outs.append(on_copy(lambda r: r.snapshot(paths=[stable])))
+    mine = [s for s in h.snaps if s['alive'] and s['owner'] == user]
+    if mine:
+        outs.append(on_copy(lambda r: r.delete_snapshots([mine[-1]['name']], confirm=False)))
+    outs.append(on_copy(lambda r: r.clean()))
+    outs.append(on_copy(lambda r: r.list_objects(object_prefix='snapshots/')))
+    names = sorted(h.be.objs)
+    outs.append(on_copy(lambda r: r.delete_objects([x for x in names if x.startswith('snapshots/')][:1] + ['data/zz/none'], confirm=False)))
+    dl = d / f'dl_{tag}_{user}'
+    o = on_copy(lambda r: r.download_objects(path=dl, object_prefix='snapshots/'))
+    outs.append(o + (sorted((k, v[0]) for k, v in world.tree_state(dl).items()),))
+    # mirror: every object of this repository as a file; uploaded with --skip-existing into an EMPTY other repository
+    mirror = d / f'mirror_{user}'          # (one directory for the cached and the cache-less run)
+    if not mirror.exists():
+        for name, data in h.be.objs.items():
+            (mirror / name).parent.mkdir(parents=True, exist_ok=True)
+            (mirror / name).write_bytes(data)
+    cwd = os.getcwd()
+    os.chdir(mirror)
+    try:
+        outs.append(on_copy(lambda r: r.upload_objects([mirror], skip_existing=True), be2=rt.MemBackend({}), unlocked=False))
+    finally:
+        os.chdir(cwd)
+    return outs
+
+
 PREFIX = ['intact', 'empty', 'one', 'half', 'allbutone', 'garbage', 'other']
 
 
@@ -183,6 +243,13 @@ def cache_history(c0, c1, c2, shared_cache, corrupt, which):
             if with_cache != without:
                 diffs = [(a, b) for a, b in zip(with_cache, without) if a != b]
                 return False, f'user {u}: cached client differs from cache-less client: {str(diffs)[:600]}'
+        for u in 'ABC':
+            with_cache = _observe_mutating(h, u, caches[u], 'c', d)
+            without = _observe_mutating(h, u, None, 'n', d)
+            if with_cache != without:
+                cmds = ['snapshot'] + (['delete'] if len(with_cache) == 7 else []) + ['clean', 'list_objects', 'delete_objects', 'download_objects', 'upload_objects --skip-existing into another repository']
+                bad = [c for c, a, b in zip(cmds, with_cache, without) if a != b]
+                return False, f'user {u}: {bad} with the cache differ(s) from the cache-less run (report or objects in the store afterwards)'
         return True, ''
 
 
